@@ -2809,6 +2809,8 @@ class EdgeQLSourceGenerator(codegen.SourceGenerator):
         if isinstance(node.object, qlast.DescribeGlobal):
             self.write(node.object.to_edgeql())
         else:
+            if not node.object.itemclass:
+                self._write_keywords('OBJECT ')
             self.visit(node.object)
         if node.language:
             self._write_keywords(' AS ')
